@@ -214,7 +214,14 @@ func TestVerifC02Gating(t *testing.T) {
 			status := rapid.SampledFrom([]int{200, 200, 200, 200, 500, 503, 400, 404, 408, 429}).Draw(t, "serverStatus")
 			srv.Status = func(vuRequest) int { return status }
 			before := vsnap.Take(dir)
-			u := vuUploader(dir, cfg, "v1.2.3", srv.URL(), now)
+			// the start time is an instant; a caller may hand it over in any location (Config.UploadStartTime is
+			// typically derived from time.Now(), which carries the local zone)
+			startArg := now
+			if z := rapid.SampledFrom([]int{0, 0, 0, -8 * 3600, 13 * 3600, -(11*3600 + 1800)}).Draw(t, "startZoneOffset"); z != 0 {
+				startArg = now.In(time.FixedZone("zone", z))
+				vstats.Label("startInOtherZone")
+			}
+			u := vuUploader(dir, cfg, "v1.2.3", srv.URL(), startArg)
 			ctl := vhook.New()
 			ctl.RandFn = func(b []byte) {
 				for i := range b {
